@@ -92,6 +92,7 @@ def trunc_real(ctx, x):
 
 
 def has_binder(e):
+    """quantifier / lambda / if-then-else inside e (none of which z3 accepts in a pattern)"""
     seen = set()
     stack = [e]
     while stack:
@@ -102,6 +103,8 @@ def has_binder(e):
         if z3.is_quantifier(t):
             return True
         if z3.is_app(t):
+            if t.decl().kind() == z3.Z3_OP_ITE:
+                return True
             stack.extend(t.children())
     return False
 
@@ -112,6 +115,9 @@ def ok_patterns(pats):
     for p in pats:
         parts = p if isinstance(p, (list, tuple)) else [p]
         if any(has_binder(x) for x in parts):
+            continue
+        # a pattern must be an uninterpreted application / array read, not an arithmetic or boolean term
+        if any(not (z3.is_app(x) and x.decl().kind() in (z3.Z3_OP_UNINTERPRETED, z3.Z3_OP_SELECT) and x.num_args() > 0) for x in parts):
             continue
         out.append(p if not isinstance(p, (list, tuple)) else z3.MultiPattern(*parts))
     return out
@@ -206,6 +212,10 @@ class Lib:
     def as_arr(self, v, dtype=None):
         if isinstance(v, Arr):
             return v
+        if isinstance(v, SymList):
+            f = v.f
+            probe = f(z3.Int('i!probe'))
+            return Arr((v.n,), lambda ix: f(ix[0]), dtype or dt_of_scalar(probe))
         if isinstance(v, (list, tuple)):
             items = list(v)
             if items and all(isinstance(x, (list, tuple)) for x in items):
@@ -405,6 +415,11 @@ class Lib:
             raise PyRaise(builtin_exc('IndexError'), '%s out of bounds' % what)
         if isinstance(i, int):
             return i + zn if i < 0 else i
+        # sign known on this path: no case split in the term
+        if not self.ctx.feasible(zi < 0):
+            return zi
+        if not self.ctx.feasible(zi >= 0):
+            return simp(zi + zn)
         return simp(z3.If(zi < 0, zi + zn, zi))
 
     def getitem(self, v, idx):
@@ -1668,6 +1683,9 @@ def flat_view(L, a):
     """C-order flattened view of a (rank <= 2)"""
     if a.ndim == 1:
         return a
+    fb = getattr(a, 'flat_backing', None)
+    if fb is not None:
+        return fb         # a C-contiguous array given by its flat storage: ravel() is that storage
     if a.ndim == 0:
         base = a
         return Arr((1,), lambda ix: base.f(()), a.dtype)
